@@ -326,6 +326,11 @@ func (u *UntrustedInputChecker) OnVisitNodeLeave(n ExprNode) {
 	case *IndexAccessNode:
 		if lit, ok := n.Index.(*StringNode); ok {
 			// Special case like github['event']['issue']['title']. Property names are case insensitive
+			if lit.Value == "*" {
+				// "*" is the name of array elements in the search tree. foo['*'] is not foo.*
+				u.cur = u.cur[:0]
+				break
+			}
 			u.onPropAccess(strings.ToLower(lit.Value))
 			break
 		}
